@@ -40,7 +40,7 @@ def plan(tier):
 
 
 def required_counters(tier):
-    return ["vs_core", "vs_pandas", "series_obj", "frame_obj", "by_column", "by_array", "by_level", "by_mixed", "by_level_names", "by_level_name_before_column_name", "selection", "multiindex", "duplicate_index",
+    return ["vs_core", "vs_pandas", "series_obj", "frame_obj", "by_column", "by_array", "by_level", "by_mixed", "by_level_names", "by_level_name_before_column_name", "key_series_named_like_a_value_column", "selection", "multiindex", "duplicate_index",
             "zeros_in_values", "iteration_checked"] + [f"m:{m}" for m in set(METHODS)]
 
 
@@ -108,6 +108,17 @@ def build(case):
         elif form == "series":
             obj = df[valnames]
             by = [df[kn] for kn in keynames]
+            if case.get("series_named_like_value"):
+                # a derived key that kept the name of a column it was computed from (df["x"] // 10): still an outside key, x is a value
+                # (unless it EQUALS that column - pandas then takes it for the column itself; not driven)
+                try:
+                    same = bool(by[0].rename(valnames[0]).equals(obj[valnames[0]])) or bool((by[0].to_numpy() == obj[valnames[0]].to_numpy()).all())
+                except Exception:
+                    same = True
+                if not same:
+                    # a fresh buffer: pandas decides "is this key a column of the frame" by shared block references, and a renamed
+                    # view of key0 shares its block with every other column of the same dtype
+                    by[0] = pd.Series(by[0].to_numpy().copy(), index=by[0].index, name=valnames[0])
         elif form == "level":
             obj = df[valnames]
             level = case["level"]
@@ -196,6 +207,8 @@ def check(case, ctx):
     df, obj, by, level, vcols = build(case)
     ctx.count("series_obj" if isinstance(obj, pd.Series) else "frame_obj")
     ctx.count({"column": "by_column", "array": "by_array", "series": "by_array", "level": "by_level", "mixed": "by_mixed", "names": "by_level_names"}[case["by_form"]])
+    if case.get("series_named_like_value"):
+        ctx.count("key_series_named_like_a_value_column")
     if case["by_form"] == "names" and any(nm in df.columns for nm in by) and by[0] not in df.columns:
         ctx.count("by_level_name_before_column_name")
     if case["index_kind"] == "multi":
@@ -424,6 +437,8 @@ def gen_case(rng):
     case = {"n": n, "keycols": keycols, "valcols": valcols, "obj": obj, "method": method, "index_kind": ik, "by_form": form,
             "select": gen.pick(rng, ["none", "none", "one", "many"]) if obj == "frame" else "none", "window": int(rng.integers(1, 4)),
             "k": int(rng.integers(0, 4)), "aggfunc": gen.pick(rng, ["sum", "mean", "max", "min", "count"]), "noshrink": True}
+    if form == "series" and obj == "frame" and method not in ROLL and rng.random() < 0.35:  # (pandas' rolling drops columns by key NAME)
+        case["series_named_like_value"] = True
     if form in ("level", "mixed", "names"):
         ik = case["index_kind"] = gen.pick(rng, ["multi", "multi", "keyindex"])
     if ik == "perm":
